@@ -100,7 +100,9 @@ def run_clog(case, ctx):
     exc = ["Boom", "BoomBase", "SystemExit", "KeyboardInterrupt"][(i // 2) % 4]
     managed = bool((i // 8) % 2) if i < 16 else rng.random() < 0.6
     J = rng.choice([2, 3])
-    cfg = dict(backend=backend, exc=exc, managed=managed, J=J, b=rng.choice([1, 1, 2]), pd=rng.choice(["2*n_jobs", "all", "n_jobs"]),
+    # batch_size 1: with larger batches the failing task could sit behind a busy sibling of its own batch (it would then
+    # legitimately start only when that sibling ends)
+    cfg = dict(backend=backend, exc=exc, managed=managed, J=J, b=1, pd=rng.choice(["2*n_jobs", "all", "n_jobs"]),
                ra=rng.choice(["list", "generator"]), N=rng.choice([J + 1, 2 * J, 3 * J]), N2=rng.choice([1, J, 2 * J + 1]), fail_at=0,
                stuck_s=60, cycles=rng.choice([1, 2, 3]))
     cfg["fail_at"] = rng.randrange(min(cfg["N"], J))     # among the first tasks, so that it starts although the others never finish
